@@ -1968,6 +1968,11 @@ impl VirtualFileSystem for Memfs {
         let mut guard = self.write_guard();
         let path = self._abs(&guard, path)?;
 
+        // Nothing to do when the target doesn't exist, whatever its parent is
+        if !guard.contains_entry(&path) {
+            return Ok(());
+        }
+
         // First check if the target contains files
         if let Some(entry) = guard.get_entry(&path) {
             if let Some(ref files) = entry.files {
